@@ -98,6 +98,46 @@ verif_harness! {
     }
 }
 
+//@ harness name=belt_wire_dec_b2b prop=C07 tier=quick bits=512 stub=1 est=150 desc="W: BeltBlock::new(key).decrypt_block_b2b(b, out) with out pre-filled with arbitrary octets == oracle belt-block decryption of b, b unchanged: the block read is the INPUT side of the in/out pair (the in-place form cannot tell get_in() from get_out())"
+verif_harness! {
+    name: belt_wire_dec_b2b,
+    bytes: 64,
+    unwind: 60,
+    stubs: [(crate::g5, stub_g5), (crate::g13, stub_g13), (crate::g21, stub_g21)],
+    prop: |inp| {
+        let key: [u8; 32] = take(inp, 0);
+        let blk: [u8; 16] = take(inp, 32);
+        let pre: [u8; 16] = take(inp, 48);
+        let c = BeltBlock::new(&key.into());
+        let ib = blk.into();
+        let mut ob = pre.into();
+        c.decrypt_block_b2b(&ib, &mut ob);
+        let e = r::decrypt_with(&key, &blk, uf_g5::call, uf_g13::call, uf_g21::call);
+        vcheck!(ib.0 == blk);
+        Some(ob.0 == e)
+    }
+}
+
+//@ harness name=belt_wire_enc_b2b prop=C07 tier=quick bits=512 stub=1 est=150 desc="W: BeltBlock::new(key).encrypt_block_b2b(b, out) with out pre-filled with arbitrary octets == oracle belt-block encryption of b, b unchanged"
+verif_harness! {
+    name: belt_wire_enc_b2b,
+    bytes: 64,
+    unwind: 60,
+    stubs: [(crate::g5, stub_g5), (crate::g13, stub_g13), (crate::g21, stub_g21)],
+    prop: |inp| {
+        let key: [u8; 32] = take(inp, 0);
+        let blk: [u8; 16] = take(inp, 32);
+        let pre: [u8; 16] = take(inp, 48);
+        let c = BeltBlock::new(&key.into());
+        let ib = blk.into();
+        let mut ob = pre.into();
+        c.encrypt_block_b2b(&ib, &mut ob);
+        let e = r::encrypt_with(&key, &blk, uf_g5::call, uf_g13::call, uf_g21::call);
+        vcheck!(ib.0 == blk);
+        Some(ob.0 == e)
+    }
+}
+
 //@ harness name=belt_rt_ed prop=C01,C20 tier=quick bits=384 stub=1 est=165 need=4 desc="W: BeltBlock dec(enc(b)) == b incl. key loading, all keys, all blocks, G5/G13/G21 arbitrary functions"
 verif_harness! {
     name: belt_rt_ed,
